@@ -107,7 +107,47 @@ func (vc *FnVC) callCommon(fr *frame, st *state, c *ssa.CallCommon, res ssa.Valu
 		sp.Used = true
 		return vc.applyContract(fr, st, sp, tk, sp.Params, args, &fnv, resType, pos, nil)
 	}
-	return vc.defaultCall(fr, st, nil, c, args, resType, "dynamic:"+typeKey(c.Value.Type()))
+	// callback of a method under contract: its own clauses say what the callback may rely on / must leave alone
+	type kept struct {
+		lv *lval
+		t  string
+	}
+	var keeps []kept
+	if fr.depth == 0 && vc.spec != nil {
+		for _, cl := range vc.spec.Clauses {
+			switch cl.Kind {
+			case "cb-requires":
+				t := vc.evalBool(fr, st, vc.old, cl.E, fr.params)
+				vc.oblige("callback-requires", cl.Src, st.reach, t, vc.tagsFor(fr, nil), pos)
+			case "cb-keeps":
+				for _, m := range cl.Mods {
+					if sel, ok := m.(*ESel); ok {
+						func() {
+							defer func() { recover() }()
+							cx := vc.newCtx(fr, st, vc.old, fr.params)
+							base := cx.eval(sel.X)
+							pt := base.typ.Underlying().(*types.Pointer).Elem()
+							stt := pt.Underlying().(*types.Struct)
+							for i := 0; i < stt.NumFields(); i++ {
+								if stt.Field(i).Name() == sel.Name {
+									lv := vc.fieldAddr(base, i)
+									keeps = append(keeps, kept{lv, vc.loadLV(st, lv)})
+								}
+							}
+						}()
+					}
+				}
+			}
+		}
+	}
+	r := vc.defaultCall(fr, st, nil, c, args, resType, "dynamic:"+typeKey(c.Value.Type()))
+	for _, k := range keeps {
+		vc.storeLV(st, k.lv, k.t)
+	}
+	if len(keeps) > 0 {
+		vc.assumption("callbacks passed to " + vc.key + " are assumed not to touch the receiver's lock and containers (they would deadlock on the held mutex)")
+	}
+	return r
 }
 
 func (vc *FnVC) freshResult(resType types.Type, prefix string) val {
